@@ -8,18 +8,37 @@ from nvlib.check import Prop
 
 WRAP = ["-Wl,--wrap=epoll_wait", "-Wl,--wrap=time", "-Wl,--wrap=platform_timer_start"]
 RESET_DURATION = 2           # ResetDuration: next_reset = now + 1 + rand() % 1 is deterministic
+CLEANUP_DURATION = 600       # CleanupDuration: clean_up() for objects nothing has applied to for 10 minutes
 HEAD = ["load reg /c09/reg"]
+PLAIN_MARK = "# plain"
 TAIL = ["step idle", "step idle", "step idle", "step idle", "step tick:40", "step tick:40", "step idle", "step idle"]
 
 
 class C09(Prop):
     id = "C09"
     title = "No event history or failing task takes the driver down"
-    lean_modules = ["NV.C09.Props", "NV.C09.Witness", "NV.C09.Bridge", "NV.C09.SpecNeg"]
+    lean_modules = ["NV.C09.Props", "NV.C09.Witness", "NV.C09.Bridge", "NV.C09.SpecNeg", "NV.C09.BatchThms", "NV.C09.PreloadThms"]
     theorems = ["NV.C09.backend_order_as_modelled", "NV.C09.error_handler_order_as_modelled",
                 "NV.C09.call_out_order_as_modelled", "NV.C09.sweep_order_as_modelled",
                 "NV.C09.remove_interactive_order_as_modelled", "NV.C09.user_command_order_as_modelled",
-                "NV.C09.connect_order_as_modelled", "NV.C09.judge_crash_clause", "NV.C09.judge_report_clause", "NV.C09.judge_exit_present", "NV.C09.judge_cycles_clause", "NV.C09.runFull_block",
+                "NV.C09.connect_order_as_modelled", "NV.C09.hb_remove_as_modelled", "NV.C09.hb_round_as_modelled",
+                "NV.C09.sweep_tests_as_modelled", "NV.C09.cursor_as_modelled", "NV.C09.backend_loop_as_modelled",
+                "NV.C09.slot_search_as_modelled", "NV.C09.process_io_as_modelled", "NV.C09.remove_tests_as_modelled",
+                "NV.C09.apply_sites_as_modelled", "NV.C09.guards_present", "NV.C09.apply_touch_as_modelled",
+                "NV.C09.input_to_call_as_modelled", "NV.C09.set_call_as_modelled", "NV.C09.prompt_as_modelled",
+                "NV.C09.command_branches_as_modelled", "NV.C09.preload_as_modelled", "NV.C09.error_handler_stmts_as_modelled",
+                "NV.C09.batch_any_order_good", "NV.C09.stale_event_skipped", "NV.C09.freed_record_events_are_stale",
+                "NV.C09.accept_serial_fresh", "NV.C09.applyAction_resolved", "NV.C09.pending_entry_older_than_any_accept",
+                "NV.C09.abandoned_suffix", "NV.C09.abandoned_nil_of_ok", "NV.C09.findConn_id",
+                "NV.C09.input_to_cleared_before_callback", "NV.C09.input_to_first_wins", "NV.C09.input_to_takes_the_line",
+                "NV.C09.no_prompt_while_input_to_pending", "NV.C09.prompt_revalidates", "NV.C09.sweep_keeps_invariant",
+                "NV.C09.failing_cleanup_loses_reset_state", "NV.C09.cleanup_restores_reset_state",
+                "NV.C09.preload_visits_every_file", "NV.C09.preload_epilog_error_loads_nothing", "NV.C09.judge_preload_phase",
+                "NV.C09.preload_keeps_fresh", "NV.C09.backend_total_after_preload", "NV.C09.preloadFiles_visits_all",
+                "NV.C09.judge_preload_clause", "NV.C09.runFull_block_start", "NV.C09.startup_good_start",
+                "NV.C09.preloadObjects_step", "NV.C09.preload_block", "NV.C09.judge_crash_clause_preload",
+                "NV.C09.judge_report_clause_preload", "NV.C09.judge_cycles_clause_preload",
+                "NV.C09.judge_crash_clause", "NV.C09.judge_report_clause", "NV.C09.judge_exit_present", "NV.C09.judge_cycles_clause", "NV.C09.runFull_block",
                 "NV.C09.backend_total", "NV.C09.backend_total_prefix", "NV.C09.freed_conn_never_used_run",
                 "NV.C09.hooks_keep_invariant", "NV.C09.runHook_ok", "NV.C09.errorHandler_same", "NV.C09.cmh_flags",
                 "NV.C09.only_failing_hb_removed", "NV.C09.error_keeps_other_heart_beats",
@@ -34,36 +53,53 @@ class C09(Prop):
     thorough_n = 4000
     search_n = 300
     design_ref = "5/C09"
-    technique = ("Lean 4 proof (invariant over all finite event histories x error injections, induction on the history and on "
-                 "hook-nesting fuel) about an executable control-flow model of backend()/process_io()/error_handler(); "
-                 "source tie by regenerated constants and by running the REAL backend() under hook H1 against the model")
+    technique = ("Lean 4 proof (invariant over all finite event histories x error injections, induction on the history, on "
+                 "hook-nesting fuel and on the batch of events of one poll) about an executable control-flow model of "
+                 "backend()/process_io()/error_handler()/the object sweep; source tie by regenerated constants, regenerated "
+                 "source text of the decisive comparisons / updates / statement orders / apply-site inventory with bridging "
+                 "lemmas, and by running the REAL backend() under hook H1 (sanitizer build and plain build) against the model")
     level_text = ("PARTIAL (model level). Lean 4 theorem `backend_total` about the model `Backend` (nullable all_users, "
                   "connection records as serials, recovery points, error_handler flag protocol with the master handler ok / "
-                  "raising / raising recursively, heart-beat bookkeeping, call_out / reset sweeps, remove_interactive, "
-                  "re-validation after callbacks): for EVERY finite history of external events x EVERY task oracle x both "
-                  "modes the run never reaches a modelled NULL dereference or use of a freed connection record, and after "
-                  "every cycle in_error = in_mudlib_error_handler = false with the error-context chain at its base "
-                  "(invariant preserved by every step, induction on the history and on hook-nesting fuel); only the failing "
-                  "heart beat removed; pending tasks of others kept by the error path. The "
-                  "model is tied to the source by running the real backend() loop (loopback TCP clients, console pipe, "
-                  "virtual time, scripted failing tasks, master error_handler in three behaviours) on the same histories: "
-                  "traces must be identical; the Lean specification oracle judges every implementation trace.")
-    level_note = ("trusted: Lean kernel; extract.py; the correspondence harness (differential; only generated histories); "
-                  "memory errors inside arbitrary failing tasks, real signal delivery, the OS, epoll event ordering with "
-                  "several simultaneous events, the address-server pipe, LPC sockets, ed, snoop, exec() are not modelled "
-                  "(ASan/UBSan observe the real runs)")
-    rule = ("cases = corpus + known-finding inputs + boundary list + seeded random histories: per backend cycle one or two "
-            "I/O events on different connections (connect / 1-3 complete or partial lines, some very long / close / "
-            "console line; console and network users together) and an optional timer tick; "
+                  "raising / catching an inner error and then raising, heart-beat bookkeeping, call_out sweep, reset + clean_up sweep with the "
+                  "walk restarted after an error, preload_objects, remove_interactive, input_to, write_prompt, re-validation after callbacks, batches of "
+                  "I/O events of one poll incl. stale entries and batches abandoned by a longjmp): for EVERY finite history of "
+                  "external events (any number of accept / data / end-of-file / hang-up / console / timer events per poll, in "
+                  "any order) x EVERY task oracle x both modes the run never reaches a modelled NULL dereference or use of "
+                  "a freed connection record, and after every cycle in_error = in_mudlib_error_handler = false with the "
+                  "error-context chain at its base; a stale entry of a batch is skipped and never shares an identity with a "
+                  "record accepted later (`batch_any_order_good`, `stale_event_skipped`, "
+                  "`pending_entry_older_than_any_accept`); only the failing heart beat removed; pending tasks of others "
+                  "kept by the error path; oracle clauses crash / report / cycle markers / exit / preload proved for all histories. "
+                  "The model is tied to the source by 60 obligations (incl. 21 bridging lemmas over text regenerated from "
+                  "the C source on every run) and by running the real backend() loop (loopback TCP clients, console pipe, "
+                  "virtual time, events of one poll delivered in scripted order by the interposed poller, scripted failing "
+                  "tasks, master error_handler in three behaviours) on the same histories: traces must be identical; the "
+                  "Lean specification oracle (12 clauses) judges every implementation trace.")
+    level_note = ("trusted: Lean kernel; extract.py and the regex translator in props/c09.py; the correspondence harness "
+                  "(differential; only generated histories); the oracle clauses heartbeats / commands / callouts / leak / "
+                  "refs / unexpected-shutdown / disconnect / hb-schedule / turns are judged on every trace but not proved "
+                  "for all histories; memory errors inside arbitrary failing tasks, real signal delivery, the OS, the same "
+                  "descriptor twice in one poll, the address-server pipe, LPC sockets, ed, snoop, exec(), get_char are not "
+                  "modelled (ASan/UBSan observe the real runs; address re-use is observed on a second build without "
+                  "sanitizers)")
+    rule = ("cases = corpus + known-finding inputs + boundary list + seeded random histories: per backend cycle one I/O "
+            "event or a batch of 2-4 events delivered by ONE poll in scripted order (accept / 1-3 complete or partial "
+            "lines, some very long / end-of-file / reset (hang-up) / console line, on distinct connections, shuffled; "
+            "directed template: a third party frees a record whose own event is still pending, accept in between) and an "
+            "optional timer tick (2 s ... 1000 s, so that reset and clean_up sweeps happen); "
             "scripts inject ok / uncaught error / caught error / destruct (self, other user, other object) / call_out / "
-            "heart-beat switch / master-handler switch into logon, process_input, command, net_dead, heart_beat, call_out, "
-            "reset and connect; both modes; three master error_handler behaviours; a case is non-trivial when its trace "
-            "has >= 2 task lines; distinct = distinct canonical implementation trace")
+            "heart-beat switch / master-handler switch / input_to into logon, process_input, command, input_to callback, "
+            "write_prompt, net_dead, heart_beat, call_out, reset, clean_up and connect; both modes; three master error_handler "
+            "behaviours; batch cases run on the sanitizer build AND on a plain build; a case is non-trivial when its "
+            "trace has >= 2 task lines; distinct = distinct canonical implementation trace")
     not_covered = ["memory errors inside the failing task itself (C01) - only observed by ASan/UBSan on the generated runs",
                    "real signal delivery, the real 2 s timer thread (ticks are injected exactly as its callback does)",
-                   "several I/O events reported by one epoll_wait (ordering is the kernel's)",
-                   "address-server pipe, LPC sockets, ed, snoop, exec(), input_to/get_char, clean_up (CleanupDuration 0)",
-                   "console on a real tty (reconnect path); the harness console is a pipe, where removal means shutdown"]
+                   "the same descriptor reported twice in one poll (data and end-of-file together), write-ready events",
+                   "address-server pipe, LPC sockets, ed, snoop, exec(), get_char, the `!` escape, "
+                   "input_to armed from net_dead / call_out / heart_beat (inherited command_giver)",
+                   "an object destructed by its own reset() when its clean_up is due (the C code applies clean_up to it)",
+                   "console on a real tty (reconnect path); the harness console is a pipe, where removal means shutdown",
+                   "oracle clauses other than crash / report / cycle markers / exit / preload are judged per trace, not proved for all histories"]
 
     # ---- tie: constants that are literals in the source ---------------------
     def gen_extra(self, ctx, bdir):
@@ -155,7 +191,7 @@ class C09(Prop):
         orders["removeInteractiveOrder"] = order(b, [
             ("test_closing", r"if \(ip->iflags & CLOSING\)"), ("set_closing", r"ip->iflags \|= CLOSING"),
             ("net_dead", r"safe_apply \(APPLY_NET_DEAD"), ("shutdown", r"g_proceeding_shutdown\+\+"),
-            ("free", r"FREE \(ip\)"), ("clear_pointer", r"ob->interactive = 0;"),
+            ("clear_pending", r"g_io_events\[idx\]\.context = 0;"), ("free", r"FREE \(ip\)"), ("clear_pointer", r"ob->interactive = 0;"),
             ("clear_slot", r"all_users\[idx\] = 0;"), ("free_object", r"free_object \(ob, \"remove_interactive\"\)")])
         b = body_of(comm, r"\nint process_user_command \(\)\s*\{")
         if b is None:
@@ -172,6 +208,129 @@ class C09(Prop):
             ("unsafe_connect", r"[^_]apply_master_ob \(APPLY_CONNECT"), ("rejected", r"return 0;"),
             ("bind", r"ob->interactive = master_ob->interactive;"), ("clear_master", r"master_ob->interactive = 0;"),
             ("free_master", r"free_object \(master_ob"), ("add_ref_user", r"add_ref \(ob")])
+        # ---- decisive comparisons / loop bounds / index updates, regenerated as normalised source text ----
+        def conds_and_updates(body, idents):
+            """all if/while/for headers that mention one of `idents` and all assignments / ++ / -- of them, in source order"""
+            hits = []
+            for m in re.finditer(r"\b(if|while|for)\s*\(", body):
+                depth, j = 0, m.end() - 1
+                while j < len(body):
+                    if body[j] == "(":
+                        depth += 1
+                    elif body[j] == ")":
+                        depth -= 1
+                        if depth == 0:
+                            break
+                    j += 1
+                text = re.sub(r"\s+", " ", body[m.start():j + 1]).strip()
+                if any(re.search(r"\b%s\b" % re.escape(i), text) for i in idents):
+                    hits.append((m.start(), text))
+            ids = "|".join(re.escape(i) for i in idents)
+            upd = (r"(?<=[;{})])\s*((?:(?:\+\+|--)\s*(?:%(i)s)\b|[^;{}()]*\b(?:%(i)s)\b[^;{}()]*(?:\+\+|--)|"
+                   r"[^;{}()]*\b(?:%(i)s)\b[^;{}()=]*(?:[-+|&]?=(?!=))[^;{}]*|[^;{}()=]*(?:[-+|&]?=(?!=))[^;{}]*\b(?:%(i)s)\b[^;{}]*))\s*;") % {"i": ids}
+            for m in re.finditer(upd, body):
+                # not the ones inside an if/for header (already listed)
+                pre = body[:m.start(1)]
+                if pre.count("(") - pre.count(")") > 0:
+                    continue
+                text = re.sub(r"\s+", " ", m.group(1)).strip()
+                if re.match(r"(if|for|while|return|else)\b", text):
+                    text = re.sub(r"^else\s+", "", text)
+                    if re.match(r"(if|for|while|return)\b", text):
+                        continue
+                hits.append((m.start(1), text + ";"))
+            return [t for _, t in sorted(hits)]
+
+        cmp_sites = {}
+        b = body_of(ec, r"\nvoid error_handler \(const char \*err\)\s*\{")
+        cmp_sites["errorHandlerStmts"] = conds_and_updates(b, ["in_error", "in_mudlib_error_handler", "mudlib_error_handler_context",
+                                                               "current_heart_beat"])
+        b = body_of(back, r"\nint set_heart_beat \(object_t \* ob, int to\)\s*\{")
+        if b is None:
+            raise X.TieBroken("set_heart_beat()", "cannot locate set_heart_beat()")
+        cmp_sites["hbRemoveStmts"] = conds_and_updates(b, ["heart_beat_index", "num_hb_to_do"])
+        b = body_of(back, r"\nstatic void call_heart_beat \(\)\s*\{")
+        if b is None:
+            raise X.TieBroken("call_heart_beat()", "cannot locate call_heart_beat()")
+        cmp_sites["hbRoundStmts"] = conds_and_updates(b, ["heart_beat_index", "num_hb_to_do", "current_heart_beat"])
+        b = body_of(back, r"\nstatic void look_for_objects_to_swap \(\)\s*\{")
+        cmp_sites["sweepStmts"] = conds_and_updates(b, ["next_time", "next_reset", "O_RESET_STATE", "ref_time", "__TIME_TO_CLEAN_UP__",
+                                                        "O_WILL_CLEAN_UP", "save_reset_state", "O_DESTRUCTED"])
+        app = open(os.path.join(E.REPO, "src/apply.c")).read()
+        b = body_of(app, r"\nint apply_low \(const char \*fun, object_t \* ob, int num_arg\)\s*\{")
+        if b is None:
+            raise X.TieBroken("apply_low()", "cannot locate apply_low()")
+        cmp_sites["applyTouchStmts"] = conds_and_updates(b, ["time_of_ref", "O_RESET_STATE"])
+        b = body_of(comm, r"\nint call_function_interactive \(interactive_t \* i, char \*str\)\s*\{")
+        if b is None:
+            raise X.TieBroken("call_function_interactive()", "cannot locate call_function_interactive()")
+        cmp_sites["inputToCallStmts"] = conds_and_updates(b, ["input_to", "sent", "NOESC"]) + order(b, [
+            ("free_sentence", r"free_sentence \(sent\)"), ("clear_input_to", r"i->input_to = 0;"),
+            ("callback", r"call_function_pointer \(funp")])
+        b = body_of(comm, r"\nint set_call \(object_t \* ob, sentence_t \* sent, int flags\)\s*\{")
+        if b is None:
+            raise X.TieBroken("set_call()", "cannot locate set_call()")
+        cmp_sites["setCallStmts"] = conds_and_updates(b, ["input_to"])
+        b = body_of(comm, r"\nstatic void print_prompt \(interactive_t \* ip\)\s*\{")
+        if b is None:
+            raise X.TieBroken("print_prompt()", "cannot locate print_prompt()")
+        cmp_sites["promptStmts"] = conds_and_updates(b, ["input_to", "IP_VALID", "HAS_WRITE_PROMPT"])
+        b = body_of(comm, r"\nint process_user_command \(\)\s*\{")
+        cmp_sites["commandBranchStmts"] = conds_and_updates(b, ["input_to", "call_function_interactive", "HAS_PROCESS_INPUT",
+                                                                "O_DESTRUCTED", "ed_buffer"])
+        b = body_of(comm, r"\nstatic char\* get_user_command \(\)\s*\{")
+        if b is None:
+            raise X.TieBroken("get_user_command()", "cannot locate get_user_command()")
+        cmp_sites["cursorStmts"] = conds_and_updates(b, ["s_next_user", "max_users", "HAS_CMD_TURN"])
+        b = body_of(back, r"\nvoid backend \(\)\s*\{")
+        cmp_sites["backendLoopStmts"] = conds_and_updates(b, ["connected_users", "HAS_CMD_TURN", "startup_step"])
+        b = body_of(comm, r"\nvoid new_interactive \(socket_fd_t socket_fd\)\s*\{")
+        if b is None:
+            raise X.TieBroken("new_interactive()", "cannot locate new_interactive()")
+        cmp_sites["slotSearchStmts"] = conds_and_updates(b, ["max_users", "new_max_users"])
+        b = body_of(comm, r"\nvoid process_io \(\)\s*\{")
+        if b is None:
+            raise X.TieBroken("process_io()", "cannot locate process_io()")
+        cmp_sites["processIoStmts"] = conds_and_updates(b, ["g_num_io_events", "O_DESTRUCTED", "EVENT_CLOSE", "all_users"])
+        b = body_of(comm, r"\nvoid remove_interactive \(object_t \* ob, int dested\)\s*\{")
+        cmp_sites["removeStmts"] = conds_and_updates(b, ["g_num_io_events", "g_io_events", "CLOSING", "dested", "max_users", "all_users"])
+
+        b = body_of(back, r"\nvoid preload_objects \(int eflag\)\s*\{")
+        if b is None:
+            raise X.TieBroken("preload_objects()", "cannot locate preload_objects()")
+        cmp_sites["preloadStmts"] = order(b, [
+            ("save_context", r"save_context\s*\(&econ\)"), ("setjmp", r"setjmp\s*\(econ\.context\)"),
+            ("restore", r"restore_context\s*\(&econ\)"), ("pop_context", r"pop_context\s*\(&econ\)"),
+            ("return", r"return;"), ("epilog", r"apply_master_ob \(APPLY_EPILOG"), ("next_file", r"ix\+\+;"),
+            ("loop", r"for \(; ix < prefiles->size; ix\+\+\)"), ("preload", r"apply_master_ob \(APPLY_PRELOAD")]) + \
+            conds_and_updates(b, ["ix", "prefiles"])
+        # ---- inventory of the driver-initiated apply sites of the event loop (protected or not) ----
+        def apply_sites(fname, src):
+            txt = re.sub(r"/\*.*?\*/", lambda m: re.sub(r"[^\n]", " ", m.group(0)), src, flags=re.S)
+            txt = re.sub(r"//[^\n]*", "", txt)
+            funcs = [(m.start(), m.group(1)) for m in re.finditer(r"^(?:[A-Za-z_][\w \t\*]*?[ \*])?([A-Za-z_]\w*)[ \t]*\([^;{}]*\)[ \t]*\{?[ \t]*$", txt, flags=re.M)
+                     if m.group(1) not in ("if", "for", "while", "switch", "return", "sizeof", "defined")]
+            out = []
+            rx = r"(?<![\w])(safe_apply_master_ob|apply_master_ob|safe_apply|apply|safe_call_function_pointer|call_function_pointer|call_function)\s*\(\s*([A-Za-z_][\w\.\->\[\]]*)"
+            for m in re.finditer(rx, txt):
+                line_start = txt.rfind("\n", 0, m.start()) + 1
+                if txt[line_start:m.start()].lstrip().startswith("#"):
+                    continue
+                if re.match(r"[ \t]*\([^;{}]*\)[ \t]*\{?[ \t]*$", txt[m.end(1):txt.find("\n", m.end(1))]) and line_start == m.start():
+                    continue        # a definition
+                fn = "?"
+                for pos, name in funcs:
+                    if pos <= m.start():
+                        fn = name
+                if fn == m.group(1):
+                    continue
+                out.append("%s:%s:%s:%s" % (fname, fn, m.group(1), m.group(2)))
+            return out
+
+        sites = []
+        for fname, src in (("backend.c", back), ("error_context.c", ec), ("comm.c", comm), ("call_out.c", co)):
+            sites += apply_sites(fname, src)
+        cmp_sites["applySites"] = sites
         # shape guards of the repaired code: the model mirrors these forms
         guards = [
             (r"if\s*\(\s*all_users\s*&&\s*all_users\s*\[\s*0\s*\]\s*\)\s*\n\s*flush_message", comm, "process_io:all_users guard"),
@@ -180,6 +339,9 @@ class C09(Prop):
              back, "backend:recovery point before the start-up steps"),
             (r"if\s*\(\s*duration\s*<\s*0\s*\)", back, "update_load_av:clamp"),
             (r"ret\s*=\s*safe_apply_master_ob\s*\(\s*APPLY_CONNECT", back, "mudlib_connect:connect under its own recovery point"),
+            (r"safe_apply\s*\(\s*APPLY_LOGON,\s*ob", back, "mudlib_logon:logon under its own recovery point"),
+            (r"for\s*\(idx = 0; idx < g_num_io_events; idx\+\+\)\s*\n\s*if\s*\(g_io_events\[idx\]\.context == ip\)\s*\n\s*g_io_events\[idx\]\.context = 0;[^}]*?FREE \(ip\);",
+             comm, "remove_interactive:pending events of the freed record cleared"),
         ]
         flags = []
         for rx, src, name in guards:
@@ -188,9 +350,14 @@ class C09(Prop):
         t += "/-- look_for_objects_to_swap period in seconds (literal) -/\ndef sweepPeriod : Nat := %d\n\n" % period
         t += "/-- MAX_VERB_BUFF of user_parser() (literal in simulate.c) -/\ndef maxVerbBuff : Nat := %d\n\n" % verbbuf
         t += "/-- ResetDuration of the verification configuration -/\ndef resetDuration : Nat := %d\n\n" % RESET_DURATION
+        t += "/-- CleanupDuration of the verification configuration -/\ndef cleanupDuration : Nat := %d\n\n" % CLEANUP_DURATION
         for name, lst in orders.items():
             t += "/-- statement order regenerated from the source (see props/c09.py gen_extra) -/\ndef %s : List String :=\n  [%s]\n\n" % (
                 name, ", ".join('"%s"' % x for x in lst))
+        for name, lst in cmp_sites.items():
+            t += "/-- normalised source text regenerated from the C code (see props/c09.py gen_extra) -/\ndef %s : List String :=\n  [%s]\n\n" % (
+                name, ",\n   ".join('"%s"' % x.replace("\\", "\\\\").replace('"', '\\"') for x in lst))
+        t += "/-- all source shapes of the repaired code are present -/\ndef guardsPresent : List Nat := [%s]\n\n" % ", ".join(str(v) for _, v in flags)
         for name, v in flags:
             ident = re.sub(r"[^A-Za-z0-9]", "_", name)
             t += "/-- source shape: %s (1 = present) -/\ndef guard_%s : Nat := %d\n\n" % (name, ident, v)
@@ -198,14 +365,26 @@ class C09(Prop):
 
     def prepare(self, ctx):
         self.exe = E.compile_harness("c09", [os.path.join(E.VERIF, "harness/c09/c09.c")], extra=WRAP)
+        # second build WITHOUT sanitizers: ASan never hands a freed address out again (quarantine), the C library's
+        # allocator does so at once - address reuse of connection records is only observable there
+        self.exe_plain = E.compile_harness("c09", [os.path.join(E.VERIF, "harness/c09/c09.c")], kind="plain", extra=WRAP)
         self.conf = E.make_mudlib(ctx.rundir, master="/c09/master.c",
-                                  extra_conf="ResetDuration %d\nCleanupDuration 0\n" % RESET_DURATION)
+                                  extra_conf="ResetDuration %d\nCleanupDuration %d\n" % (RESET_DURATION, CLEANUP_DURATION))
 
     def run_impl(self, ctx, cases):
         # split into chunks: one harness process per chunk keeps a crash of the harness itself local
         out = {}
         for i in range(0, len(cases), 60):
             out.update(E.run_harness(self.exe, self.conf, cases[i:i + 60], ctx.rundir, args=["--timeout", "40"]))
+        # cases marked `# plain` run a second time on the build without sanitizers (real allocator: a freed
+        # connection record's address is reused by the next accept).  Its trace is the one that is compared and
+        # judged, unless the sanitizer run already shows a crash.
+        plain = [c for c in cases if PLAIN_MARK in c.lines]
+        for i in range(0, len(plain), 60):
+            res = E.run_harness(self.exe_plain, self.conf, plain[i:i + 60], ctx.rundir, args=["--timeout", "40"])
+            for cid, tr in res.items():
+                if not any(l.startswith(("crash", "sanitizer")) for l in out.get(cid, [])):
+                    out[cid] = tr
         return out
 
     # ---- boundary set ---------------------------------------------------------
@@ -263,6 +442,58 @@ class C09(Prop):
                                               "script u1 cmd:o meh:ok;err", "script u1 cmd:e err", "step conn:c1",
                                               "step send:c1:e/r/e/", "step send:c1:c/e/o/e/", "step idle", "step idle",
                                               "step idle", "step idle"])
+        # several events reported by ONE poll, delivered in the order written (the harness sorts what epoll returned)
+        mk("batch-stale-event-reused-record", [
+            PLAIN_MARK, "mode net", "script u2 netdead dest:u1", "step conn:c1", "step conn:c2", "step send:c1:a/",
+            "step send:c2:b/", "step close:c2 conn:c3 reset:c1", "step send:c3:x/", "step send:c3:y/"])
+        mk("batch-stale-data-reused-record", [
+            PLAIN_MARK, "mode net", "script u2 netdead dest:u1", "step conn:c1", "step conn:c2",
+            "step reset:c2 conn:c3 send:c1:lost/", "step send:c3:x/"])
+        for i, perm in enumerate([("conn:c3", "send:c1:p/", "close:c2"), ("conn:c3", "close:c2", "send:c1:p/"),
+                                  ("send:c1:p/", "conn:c3", "close:c2"), ("send:c1:p/", "close:c2", "conn:c3"),
+                                  ("close:c2", "conn:c3", "send:c1:p/"), ("close:c2", "send:c1:p/", "conn:c3")]):
+            mk("batch-perm-%d" % i, [
+                PLAIN_MARK, "mode net", "script u2 netdead dest:u1;err", "script u3 logon dest:u1", "script u1 netdead err",
+                "step conn:c1", "step conn:c2", "step send:c1:a/ send:c2:b/", "step " + " ".join(perm) + " tick",
+                "step send:c3:x/", "step idle"])
+        mk("batch-console-and-network", ["mode console", "script u1 cmd:boom err", "step conn:c1", "step conn:c2",
+                                         "step send:c1:a/ cin:boom/ reset:c2 tick", "step cin:b/ conn:c3 send:c1:c/",
+                                         "step close:c1 cin:d/ send:c3:e/"])
+        mk("batch-logon-error-keeps-rest", [
+            "mode net", "script u3 logon err", "step conn:c1", "step conn:c2", "step conn:c3 send:c1:a/ close:c2",
+            "step idle", "step send:c1:b/"])
+        # the console line that arrives in the same poll as a connection whose logon() raises is served in that cycle
+        mk("batch-console-line-behind-failing-logon", ["mode console", "script u2 logon err", "step cin:first/",
+                                                       "step conn:c1 cin:hello/"])
+        # table boundary: slots 1..49 full, the 50th network connection makes all_users grow from 50 to 100 entries;
+        # the console user (slot 0) and a user of the first chunk keep working afterwards
+        mk("fifty-one-connections", ["mode console", "script u3 netdead err"] + ["step conn:c%d" % i for i in range(1, 52)] +
+           ["step send:c51:a/ send:c1:b/ cin:c/", "step close:c2 conn:c52", "step send:c52:d/ tick"])
+        # input_to(): the next line goes to the callback (no process_input, no command, no prompt while one is pending);
+        # the callback re-arms itself, raises, disconnects its user; only the first of two input_to() calls counts
+        mk("input-to-chain", ["mode net", "script u1 logon it:s;it:t", "script u1 it:s it:t", "script u1 it:t err",
+                              "script u1 cmd:ask it:s;w:q", "script u2 logon it:s", "script u2 it:s dest:me", "script u3 it:s ok",
+                              "script u3 input it:s", "step conn:c1", "step conn:c2", "step conn:c3",
+                              "step send:c1:l1/l2/l3/ask/l5/l6/ send:c2:bye/never/ send:c3:a/b/c/", "step close:c1"])
+        mk("input-to-console", ["mode console", "script u1 logon it:s", "script u1 it:s it:t;cerr", "script u1 it:t dest:me",
+                                "step cin:one/two/", "step cin:three/"])
+        # clean_up(): idle objects get it from the sweep; it raises, destructs itself, destructs the next object of the walk;
+        # a failing clean_up() does not restore the saved O_RESET_STATE (the object is reset again by the next sweep)
+        mk("clean-up-sweep", ["mode net", "clone o1 /c09/obj", "clone o2 /c09/obj", "clone o3 /c09/obj", "clone o4 /c09/obj",
+                              "script o1 cleanup err", "script o2 cleanup dest:me", "script o4 cleanup dest:o3;co:2:p",
+                              "script o3 reset cerr", "script o1 reset ok", "script o4 co:p w:x",
+                              "step tick", "step tick:1000", "step conn:c1 tick:1000", "step send:c1:a/ tick:1000",
+                              "step tick:1000", "step tick:5"])
+        # write_prompt(): unprotected apply after every served line; it raises, disconnects its user, arms an input_to
+        mk("write-prompt-hooks", ["mode net", "script u1 prompt err", "script u2 prompt dest:me", "script u3 prompt it:s",
+                                  "script u3 it:s w:got", "script u4 prompt cerr;dest:u1", "step conn:c1", "step conn:c2",
+                                  "step conn:c3", "step conn:c4", "step send:c1:a/b/ send:c2:a/b/ send:c3:a/b/c/ send:c4:a/",
+                                  "step send:c1:c/ tick"])
+        # preload_objects(): a failing file does not stop the rest; a failing epilog() preloads nothing; all three master
+        # error_handler behaviours report the error
+        for meh in ("ok", "raise", "recurse"):
+            mk("preload-" + meh, ["mode net", "meh " + meh, "preload err,ok,err,err,ok", "step conn:c1", "step send:c1:a/"])
+        mk("preload-epilog-fails", ["mode console", "meh recurse", "preload epilog-err", "step cin:a/"])
         mk("connect-rejected", ["mode net", "script k1 connect rej", "step conn:c1", "step conn:c2", "step send:c2:a/"])
         return B
 
@@ -279,6 +510,8 @@ class C09(Prop):
             "wrong-command-run": pre + ["t input u1 a", "t cmd u1 zzz", "cycle 3", "t input u1 b", "t cmd u1 b"] + tail,
             "refs-unbalanced": pre + ["t input u1 a", "t cmd u1 a", "cycle 3", "t input u1 b", "t cmd u1 b",
                                       "exit loop", 'hbs ""', "refs 1 0", "slots 1", "slotidx 1"],
+            "user-disconnected-by-the-driver": pre + ["t input u1 a", "t cmd u1 a", "cycle 3", "t input u1 b", "t cmd u1 b",
+                                                "cycle 4", "t netdead u1", "exit loop", 'hbs ""', "refs 0 0", "slots 0", "slotidx"],
             "sanitizer-line": pre + ["sanitizer ERROR: AddressSanitizer: heap-use-after-free"] + tail,
         }
         good = pre + ["t input u1 a", "t cmd u1 a", "cycle 3", "t input u1 b", "t cmd u1 b"] + tail
@@ -295,11 +528,11 @@ class C09(Prop):
         return problems
 
     # ---- random histories -------------------------------------------------------
-    def gen_ops(self, rng, me, nusers, nobjs, allow_err=True):
+    def gen_ops(self, rng, me, nusers, nobjs, allow_err=True, allow_it=False):
         ops = []
         for _ in range(rng.weighted([(1, 6), (2, 3), (3, 1)])):
             k = rng.weighted([("ok", 4), ("err", 5 if allow_err else 0), ("cerr", 2), ("dest", 3), ("co", 3), ("hb", 2),
-                              ("w", 2), ("meh", 1)])
+                              ("w", 2), ("meh", 1), ("it", 3 if allow_it else 0)])
             if k == "dest":
                 t = rng.weighted([("me", 3), ("u", 3), ("o", 2)])
                 if t == "u":
@@ -318,6 +551,8 @@ class C09(Prop):
                 ops.append("w:" + rng.choice(["hi", "zz", "msg"]))
             elif k == "meh":
                 ops.append("meh:" + rng.choice(["ok", "raise", "recurse"]))
+            elif k == "it":
+                ops.append("it:" + rng.choice(["s", "t"]))
             else:
                 ops.append(k)
             if k == "err":
@@ -331,19 +566,33 @@ class C09(Prop):
         nobjs = rng.weighted([(0, 2), (1, 3), (2, 3), (3, 2)])
         nusers = rng.range(1, 4)
         verbs = ["a", "b", "boom", "quit", "kick", "x1"]
+        # preload_objects() before backend(): the master's epilog() names 1-4 files, some of which fail to load
+        if rng.chance(25, 100):
+            lines.append("preload " + ("epilog-err" if rng.chance(8, 100) else
+                                       ",".join(rng.choice(["ok", "ok", "err"]) for _ in range(rng.range(1, 4)))))
         for i in range(1, nobjs + 1):
             lines.append("clone o%d /c09/obj" % i)
         density = rng.weighted([(25, 2), (45, 3), (70, 2)])
         for i in range(1, nobjs + 1):
-            for kind in ("hb", "reset", "co:p", "co:q", "co:r"):
+            for kind in ("hb", "reset", "co:p", "co:q", "co:r", "cleanup"):
                 if rng.chance(density, 100):
-                    lines.append("script o%d %s %s" % (i, kind, self.gen_ops(rng, "o%d" % i, nusers, nobjs)))
+                    ops = self.gen_ops(rng, "o%d" % i, nusers, nobjs)
+                    if kind == "reset":
+                        # an object destructed by its own reset() would still get clean_up() from the C code when that
+                        # is due (apply to a destructed object): not scripted
+                        ops = ";".join("ok" if o in ("dest:me", "dest:o%d" % i) else o for o in ops.split(";"))
+                    lines.append("script o%d %s %s" % (i, kind, ops))
         for u in range(1, nusers + 2):
-            for kind in ["logon", "input", "netdead", "hb", "co:p", "co:q"] + ["cmd:" + v for v in verbs]:
-                if rng.chance(density // 2 if kind in ("logon", "input") else density, 100):
-                    lines.append("script u%d %s %s" % (u, kind, self.gen_ops(rng, "u%d" % u, nusers, nobjs)))
+            for kind in ["logon", "input", "netdead", "hb", "co:p", "co:q", "it:s", "it:t", "prompt"] + ["cmd:" + v for v in verbs]:
+                if rng.chance(density // 2 if kind in ("logon", "input", "prompt") else density, 100):
+                    # input_to() acts on command_giver: that is the user itself in logon, process_input, a command and
+                    # an input_to callback (not in net_dead / call_out / heart_beat, where it is inherited)
+                    it_ok = kind in ("logon", "input", "it:s", "it:t", "prompt") or kind.startswith("cmd:")
+                    lines.append("script u%d %s %s" % (u, kind, self.gen_ops(rng, "u%d" % u, nusers, nobjs, allow_it=it_ok)))
+        refused = set()
         for k in range(1, nusers + 3):
             if rng.chance(6, 100):
+                refused.add(k)
                 lines.append("script k%d connect %s" % (k, rng.choice(["err", "rej"])))
         for i in range(1, nobjs + 1):
             if rng.chance(75, 100):
@@ -357,13 +606,32 @@ class C09(Prop):
         open_c = []
         nconn = 0
         sent = {}
+        quiet_next = False
+        aba_done = False
+        user_of = {}                      # client -> ordinal of its user object (the console user is attempt 1)
+        attempt = [1 if console else 0, 0 if (not console or 1 in refused) else 1]
+
+        def note_conn(c):
+            attempt[0] += 1
+            if attempt[0] not in refused:
+                attempt[1] += 1
+                user_of[c] = attempt[1]
+        batch = False
+        later_open = []
         for _ in range(rng.range(5, 22)):
             acts = []
+            open_c += later_open
+            later_open = []
+            if quiet_next:
+                quiet_next = False
+                lines.append("step " + rng.weighted([("idle", 3), ("tick", 2)]))
+                continue
             k = rng.weighted([("conn", 4 if nconn < nusers + 1 else 0), ("send", 9 if open_c else 0), ("close", 2 if open_c else 0),
                               ("cin", 6 if console else 0), ("idle", 2), ("none", 3)])
             if k == "conn":
                 acts.append("conn:c%d" % nextc)
                 open_c.append(nextc)
+                note_conn(nextc)
                 nextc += 1
                 nconn += 1
             elif k == "send":
@@ -374,39 +642,76 @@ class C09(Prop):
             elif k == "close":
                 c = rng.choice(open_c)
                 open_c.remove(c)
-                acts.append("close:c%d" % c)
+                acts.append("%s:c%d" % (rng.weighted([("close", 3), ("reset", 2)]), c))
             elif k == "cin":
                 t = self.gen_text(rng, verbs, partial_ok=False)
                 sent[0] = sent.get(0, 0) + t.count("/")
                 acts.append("cin:" + t)
             elif k == "idle":
                 acts.append("idle")
-            # several events reported by one poll: a second I/O action on ANOTHER client in the same step
-            # (only input + input: buffering two connections commutes, so the kernel's event order cannot matter;
-            #  an accept or a close can run LPC code, which makes the order observable)
-            if acts and k in ("send", "cin") and rng.chance(25, 100):
-                busy = set(int(a.split(":")[1][1:]) for a in acts if a.split(":")[0] in ("send", "close", "conn"))
-                others = [c for c in open_c if c not in busy]
-                k2 = rng.weighted([("send", 6 if others else 0), ("cin", 3 if console and k != "cin" else 0), ("none", 1)])
-                if k2 == "send":
-                    c = rng.choice(others)
-                    t = self.gen_text(rng, verbs)
-                    sent[c] = sent.get(c, 0) + t.count("/")
-                    acts.append("send:c%d:%s" % (c, t))
-                elif k2 == "close":
-                    c = rng.choice(others)
-                    open_c.remove(c)
-                    acts.append("close:c%d" % c)
-                elif k2 == "cin":
-                    t = self.gen_text(rng, verbs, partial_ok=False)
-                    sent[0] = sent.get(0, 0) + t.count("/")
-                    acts.append("cin:" + t)
+            # several events reported by ONE poll, in every order (the harness delivers them in the order written):
+            # accept / data / end-of-file / reset (hang-up) / console line on DISTINCT connections that were open
+            # before this step - one descriptor yields one event per poll
+            if k in ("send", "cin", "conn", "close") and rng.chance(30, 100):
+                busy = set(int(a.split(":")[1][1:]) for a in acts if a.split(":")[0] in ("send", "close", "conn", "reset"))
+                for _ in range(rng.weighted([(1, 5), (2, 3), (3, 1)])):
+                    others = [c for c in open_c if c not in busy]
+                    k2 = rng.weighted([("send", 6 if others else 0), ("close", 2 if others else 0), ("reset", 3 if others else 0),
+                                       ("conn", 3 if (nconn < nusers + 2 and not any(a.startswith("conn") for a in acts)) else 0),
+                                       ("cin", 3 if console and not any(a.startswith("cin") for a in acts) else 0), ("none", 1)])
+                    if k2 == "send":
+                        c = rng.choice(others)
+                        t = self.gen_text(rng, verbs)
+                        sent[c] = sent.get(c, 0) + t.count("/")
+                        acts.append("send:c%d:%s" % (c, t))
+                        busy.add(c)
+                    elif k2 in ("close", "reset"):
+                        c = rng.choice(others)
+                        open_c.remove(c)
+                        acts.append("%s:c%d" % (k2, c))
+                        busy.add(c)
+                    elif k2 == "conn":
+                        acts.append("conn:c%d" % nextc)
+                        busy.add(nextc)
+                        later_open.append(nextc)
+                        note_conn(nextc)
+                        nextc += 1
+                        nconn += 1
+                    elif k2 == "cin":
+                        t = self.gen_text(rng, verbs, partial_ok=False)
+                        sent[0] = sent.get(0, 0) + t.count("/")
+                        acts.append("cin:" + t)
+                rng.shuffle(acts)
+                # (logon() runs under its own recovery point - fix commit -, so an accept in front of other events,
+                #  console lines included, cannot make process_io() abandon them any more: no restriction on the order)
+                if len(acts) > 1:
+                    batch = True
             if rng.chance(35, 100) or not acts:
-                acts.append(rng.weighted([("tick", 12), ("tick:1", 3), ("tick:5", 2), ("tick:1000", 2)]))
+                acts.append(rng.weighted([("tick", 12), ("tick:1", 3), ("tick:5", 2), ("tick:1000", 4)]))
             lines.append("step " + " ".join(acts))
+            # directed: a third party frees a record whose own event is still waiting in the batch, with an accept in
+            # between (the allocator hands the freed address to the new record): A's net_dead destructs B
+            if len(open_c) >= 2 and not aba_done and not quiet_next and rng.chance(12, 100):
+                aba_done = True
+                batch = True
+                a, b = rng.choice(open_c), None
+                b = rng.choice([c for c in open_c if c != a])
+                if a in user_of and b in user_of:
+                    lines.append("script u%d netdead dest:u%d%s" % (user_of[a], user_of[b], rng.choice(["", ";err", ";co:1:p"])))
+                mid = ["conn:c%d" % nextc] + (["send:c%d:%s" % (c, self.gen_text(rng, verbs)) for c in open_c if c not in (a, b)][:1])
+                rng.shuffle(mid)
+                lines.append("step %s:c%d %s %s:c%d" % (rng.choice(["close", "reset"]), a, " ".join(mid),
+                                                        rng.weighted([("reset", 3), ("close", 1)]), b))
+                open_c = [c for c in open_c if c not in (a, b)] + [nextc]
+                note_conn(nextc)
+                nextc += 1
+                nconn += 1
+                lines.append("step " + rng.weighted([("idle", 3), ("tick", 2)]))
         # settle: one buffered line is served per user and cycle, so drain the longest backlog before the closing ticks
         drain = ["step idle"] * max(0, max(list(sent.values()) + [0]) - 3)
-        return E.Case(cid, HEAD + lines + drain + TAIL + ["run"], {"origin": "generated"})
+        # batches run on the build without sanitizers as well (address reuse of freed connection records)
+        mark = [PLAIN_MARK] if batch and rng.chance(50, 100) else []
+        return E.Case(cid, HEAD + mark + lines + drain + TAIL + ["run"], {"origin": "generated"})
 
     def gen_text(self, rng, verbs, partial_ok=True):
         n = rng.weighted([(1, 6), (2, 3), (3, 1)])
@@ -422,6 +727,11 @@ class C09(Prop):
 
     def generate(self, rng, n, tier):
         return [self.gen_case(rng, "g%d" % i) for i in range(n)]
+
+    def shrink_ok(self, lines):
+        """a shrunk case must still be a case that runs: registry loaded first, `run` last (without `run` there is no
+        final observation and the judge's `no-observation` / `no-exit` verdicts would pass for the original verdict)"""
+        return len(lines) >= 2 and lines[0] == HEAD[0] and lines[-1] == "run" and lines.count("run") == 1
 
     def nontrivial_key(self, case, out):
         import hashlib
@@ -447,6 +757,16 @@ class C09(Prop):
             for l in c.lines:
                 if l.startswith("mode "):
                     h[l] = h.get(l, 0) + 1
+                elif l == PLAIN_MARK:
+                    h["cases also run without sanitizers"] = h.get("cases also run without sanitizers", 0) + 1
+                elif l.startswith("step "):
+                    io = [a.split(":")[0] for a in l.split()[1:] if not a.startswith(("tick", "idle"))]
+                    if len(io) >= 2:
+                        h["polls with %d events" % min(len(io), 4)] = h.get("polls with %d events" % min(len(io), 4), 0) + 1
+                        if "conn" in io and io[-1] != "conn":
+                            h["polls: accept followed by other events"] = h.get("polls: accept followed by other events", 0) + 1
+                        if "reset" in io or "close" in io:
+                            h["polls: hang-up / eof with other events"] = h.get("polls: hang-up / eof with other events", 0) + 1
         return h
 
 
